@@ -179,7 +179,7 @@ Theorem progress_data : forall c s p, Inv c s -> st s = DATA -> exists s' r d, s
 Proof.
   intros c s p HI Hs. pose proof (step_no_panic c s (B p) HI) as Hp.
   unfold step, step_data in *. rewrite Hs in *.
-  destruct p as [|body hdr hook]; eauto.
+  destruct p as [| |body hdr hook]; eauto.
   destruct (max_bytes c <? Z.of_nat (length body))%Z; eauto.
   destruct hdr; eauto. destruct (from s); eauto. congruence.
 Qed.
